@@ -23,13 +23,17 @@ CONFIG = {
              "one-character strings, anchored scalars aliased as mapping values / sequence elements / keys, empty "
              "containers, nested sequences, sets) x YAML Paths built from the loaded document to match >= 1 node: exact, "
              "negative index, wildcard, searches over the parent's children, **, [name()], slices, the root, and "
-             "Collector unions (same node twice, reversed order, node + ancestor, root + other).  non-trivial = at "
+             "Collector unions (same node twice, reversed order, node + ancestor, root + other); a quarter of the "
+             "documents hold anchored MAPPINGS (&m1 {..}), keys spelled like those anchor names in other mappings, "
+             "and mappings that merge them in (<<: *m1).  non-trivial = at "
              "least one coordinate gathered; distinct = distinct (document, path)."),
     "trusted_base": [
         "modelled, not verified: yamlpath/processor.py delete_nodes/delete_gathered_nodes/_delete_nodes "
         "(lines 685-812) on the gathered coordinates; the read side (_get_required_nodes) is NOT modelled: its "
         "NodeCoords are captured from the real run and handed to the model",
-        "the YAML-merge-key branch of _delete_nodes (parent.merge) is outside the model: generators emit no merge keys",
+        "the merge-key REMOVAL of _delete_nodes (`for (midx, merge_node) in parent.merge`) is outside the model; its "
+        "entry test IS modelled (Anchors.scan_for_anchors + is_ymk_anchor + `len(parent.merge) > 0`, Mutate.del_step_mg): "
+        "cases that enter it, and deletions inside a mapping that others merge in (ruamel propagates them), are skipped",
         "the harness' shadow copy + ShadowEncoder (harness/mutgen.py) as the independent judge",
     ],
     "assumptions": [
@@ -121,6 +125,21 @@ def delete_record(p, path):
     coords = state["top"]
     after = docenc.canon_doc_text(docenc.encode(p.data)[0])
     order = del_order(coords)
+    # YAML merge keys: the mappings whose .merge list was non-empty go to the model beside the document;
+    # outside the model (skipped): a deletion inside a mapping other mappings merge in (ruamel propagates it to
+    # the referring mappings), and the merge-key removal branch itself (parent has merge keys and parentref is
+    # the anchor name of some node - decided here on the pre-state, independently of the code)
+    merged = [x for x in shadow.keep if isinstance(x, dict) and shadow.merged.get(id(x))]
+    for nc in order:
+        if isinstance(nc.parent, dict):
+            if shadow.referred.get(id(nc.parent)):
+                rec["why"] = "merge-referent"
+                return rec
+            if shadow.merged.get(id(nc.parent)) and isinstance(nc.parentref, str) \
+                    and str.__str__(nc.parentref) in shadow.anchor_names:
+                rec["why"] = "merge-key-removal"
+                return rec
+    rec["mg_sexp"] = "(%s)" % " ".join("i%d" % enc.oids[id(x)] for x in merged if id(x) in enc.oids)
     rec.update(kind="run", before=before, coords=coords, enc=enc, shadow=shadow, exc=exc, after=after,
                order=order, data=data,
                coords_sexp="(%s)" % " ".join(mutgen.coord_sexp(c, enc) for c in coords))
@@ -208,7 +227,7 @@ def requests(case):
     rec = run_case(case)
     if rec["kind"] == "skip":
         return ["(mut-skip)"]
-    return ["(delete %s %s)" % (rec["before"], rec["coords_sexp"]),
+    return ["(delete %s %s %s)" % (rec["before"], rec["coords_sexp"], rec["mg_sexp"]),
             "(delete-spec %s %s)" % (rec["before"], rec["coords_sexp"])]
 
 
@@ -324,6 +343,13 @@ CORPUS = [
     ("{s: !!set {x, y}, t: 1}", "s.x"),
     ("[1, 1, 300, 300, x, x]", "[.=1]"),
     ("{a: &n1 x, b: *n1, c: [*n1, y]}", "c[0]"),
+    # a key spelled like the anchor of a mapping elsewhere, in a parent without merge keys: an ordinary delete
+    ("{base: &m1 {x: 1}, o: {m1: 5, k: 2}}", "o.m1"),
+    ("{base: &m1 {x: 1}, u: {<<: *m1, z: 3}, o: {m1: 5, k: 2}}", "o.m1"),
+    ("{base: &m1 {x: 1}, u: {<<: *m1, z: 3}, o: {m1: 5, k: 2}}", "u.z"),
+    ("{base: &m1 {x: 1}, u: {<<: *m1, z: 3}, o: {m1: 5, k: 2}}", "u.x"),
+    ("{l: [&m1 {x: 1}], o: {m1: 5}}", "o.*"),
+    ("{m1: 1, base: &m1 {x: 1}}", "m1"),
 ]
 
 
@@ -338,7 +364,7 @@ def chunks(tier, seed):
     buf = []
     i = 0
     while i < n:
-        text = mutgen.gen_doc_text(rng, max_depth=rng.choice([2, 3, 3]))
+        text = mutgen.gen_doc_text(rng, max_depth=rng.choice([2, 3, 3]), map_anchors=rng.random() < 0.25)
         try:
             data = mutgen.load(text)
         except Exception:  # noqa
